@@ -12,7 +12,9 @@ import re
 from . import ipgen, lines as L, secrets as S
 
 BENIGN_EXTRA = ["GigabitEthernet0/1", "vlan", "10", "mtu", "1500", "Te1/0/2", "ge-0/0/0.0", "!", "#", "{", "}", "exit-address-family",
-                "255", "0/0", "access-list", "101", "(config)", "rtr01", "=>", "Po1", "unit", "0;"]
+                "255", "0/0", "access-list", "101", "(config)", "rtr01", "=>", "Po1", "unit", "0;",
+                # text that is not in Unicode normal form C (decomposed accents, compatibility characters): copied as is
+                "cafe\u0301", "Zu\u0308rich-Nord"[:0] + "u\u0308ber", "100\u2126", "\u212bngstro\u0308m", "\ufb01ber", "no\u0303"]
 # "ter" and "sp" are parts of built-in reserved words (internet, router, ospf ...): those stay as written
 # (no listed word occurs in the scrub marker or in "netconanRemoved": that interplay is C15's subject, not a label question)
 WORDS = ["zurich", "gotham", "kiwi", "intentionet", "seattle", "northwest", "north", "sea", "ter", "sp"]
